@@ -11,7 +11,7 @@ use crate::rng::Rng;
 use crate::sx;
 use indexmap::IndexMap;
 use rooc::model_transformer::{Constraint, DomainVariable, Exp};
-use rooc::verif_hooks::analyze_bounds;
+use rooc::verif_hooks::{analyze_bounds, linearizer_bounds};
 use rooc::{BinOp, Comparison, InputSpan, UnOp, VariableType};
 
 const TOL: f64 = 1e-9; // bounds.rs DEFAULT_TOLERANCE (private there; a change shows up as a diff)
@@ -130,6 +130,72 @@ fn run(inst: &Inst) -> Case {
     }
     c.show = show;
     c
+}
+
+/// the same instance through `verif_hooks::linearizer_bounds`: what `Linearizer::linearize` itself uses
+/// (`normalized_for_bounds`, `analyze(..).enforceable(&domain)`, `apply_to_domain`).  The normalisation
+/// (`simplify().flatten().simplify()`, C10's subject) is done here with the public methods, so the model request and
+/// the oracle's source model are the normalised constraints; the hook gets the raw ones.
+fn run_lin(inst: &Inst) -> Option<Case> {
+    let mut used = vec![];
+    for c in &inst.constraints { names(c.lhs(), &mut used); names(c.rhs(), &mut used); }
+    let mut domain: IndexMap<String, DomainVariable> = IndexMap::new();
+    for (n, t) in &inst.domain {
+        let mut d = DomainVariable::new(*t, InputSpan::default());
+        if used.contains(n) { d.increment_usage(); }
+        domain.insert(n.clone(), d);
+    }
+    let raw = inst.constraints.clone();
+    let norm = std::panic::catch_unwind(|| {
+        raw.iter().map(|c| {
+            let n = |e: &Exp| e.clone().simplify().flatten().simplify();
+            if c.is_logic_assertion() { Constraint::new_logic_assertion(n(c.lhs()), c.name().to_string()) }
+            else { Constraint::new(n(c.lhs()), c.constraint_type(), n(c.rhs()), c.name().to_string()) }
+        }).collect::<Vec<_>>()
+    }).ok()?;
+    let mut tail = format!("{} {} (constraints", sx::num(TOL), sx::domain(&domain));
+    for c in &norm { tail.push(' '); tail.push_str(&sx::constraint(c)); }
+    tail.push(')');
+    let mut c = Case::default();
+    c.req = format!("linbounds {}", tail);
+    match std::panic::catch_unwind(|| linearizer_bounds(&domain, &inst.constraints)) {
+        Ok(rep) => {
+            let mut imp = String::from("(ok (vars");
+            for (_, lo, hi) in &rep.variables { imp.push(' '); imp.push_str(&b(*lo, *hi)); }
+            imp.push_str(") (exprs) ");
+            let mut dom = rep.domain.clone();
+            for (_, d) in dom.iter_mut() {
+                let t = canon_ty(d.get_type());
+                let mut nd = DomainVariable::new(t, InputSpan::default());
+                for _ in 0..d.usage_count() { nd.increment_usage(); }
+                *d = nd;
+            }
+            imp.push_str(&sx::domain(&dom));
+            imp.push(')');
+            c.nontrivial = rep.variables.iter().zip(inst.domain.iter()).any(|((_, lo, hi), (_, t))| {
+                let (dl, dh) = match t {
+                    VariableType::Boolean => (0.0, 1.0),
+                    VariableType::IntegerRange(a, b) => (*a as f64, *b as f64),
+                    VariableType::NonNegativeReal(a, b) | VariableType::Real(a, b) => (*a, *b),
+                };
+                lo.to_bits() != dl.to_bits() || hi.to_bits() != dh.to_bits()
+            });
+            c.oracle = format!("check-lin {} {}", tail, imp);
+            c.imp = imp;
+        }
+        Err(_) => {
+            c.imp = "(err panic)".into();
+            c.impl_violation = Some("linearizer_bounds panicked".into());
+        }
+    }
+    c.tags = vec!["linearizer-path".to_string(), format!("lin-{}", inst.tags[0])];
+    c.tags.push(if c.nontrivial { "lin-tightened".into() } else { "lin-declared".into() });
+    let mut show = String::from("[linearizer path] ");
+    for (n, t) in &inst.domain { show.push_str(&format!("{} as {:?}; ", n, t)); }
+    show.push_str("s.t. ");
+    for x in &inst.constraints { show.push_str(&format!("{} {} {}; ", x.lhs(), x.constraint_type(), x.rhs())); }
+    c.show = show;
+    Some(c)
 }
 
 // ---------------------------------------------------------------- value pools
@@ -495,6 +561,30 @@ fn s_steplimit(r: &mut Rng) -> Inst {
     Inst { domain, constraints: cs, exprs, tags: vec!["step-limit".into()] }
 }
 
+/// rows whose two sides differ by many orders of magnitude (big-M style constants, tiny coefficients)
+fn s_magnitude(r: &mut Rng) -> Inst {
+    let vars = var_names(1 + r.below(2));
+    let hi: f64 = *r.pick(&[1.0, 10.0, 1000.0, 0.5]);
+    let domain: Vec<(String, VariableType)> = vars.iter().map(|x| (x.clone(),
+        if r.chance(1, 4) { VariableType::IntegerRange(0, hi.max(1.0) as i32) } else { VariableType::Real(if r.chance(1, 2) { 0.0 } else { -hi }, hi) })).collect();
+    let big = *r.pick(&[1e6, 1e9, 1e12, 1e15, 1e16, 3e17]);
+    let small = *r.pick(&[1.0, 1e-3, 1e-6, 1e-9, 1e-12]);
+    let x = vars[0].clone();
+    let inner = if small == 1.0 { v(&x) } else { mul(k(small), v(&x)) };
+    let lhs = match r.below(6) {
+        0 => abs(inner),
+        1 => Exp::Max(vec![inner, pv(r, &vars)]),
+        2 => Exp::Min(vec![inner, k(big)]),
+        3 => add(abs(inner), k(big)),
+        4 => add(inner, mul(k(small), pv(r, &vars))),       // affine row: no absorption expected
+        _ => sub(Exp::Max(vec![inner, k(0.0)]), k(big)),
+    };
+    let (op, rhs) = match r.below(3) { 0 => (Comparison::LessOrEqual, k(big)), 1 => (Comparison::GreaterOrEqual, k(-big)), _ => (Comparison::LessOrEqual, k(2.0 * big)) };
+    let cs = vec![row(lhs.clone(), op, rhs, 0)];
+    let exprs = vec![lhs, add(v(&x), sub(k(big), k(big))), sub(add(v(&x), k(big)), k(big))];
+    Inst { domain, constraints: cs, exprs, tags: vec!["magnitude".into()] }
+}
+
 fn s_zero(r: &mut Rng) -> Inst {
     let vars = var_names(2 + r.below(2));
     let domain = vars.iter().map(|x| (x.clone(), var_type(r, false))).collect();
@@ -542,6 +632,10 @@ fn s_special(r: &mut Rng) -> Inst {
     }
     let mut exprs = vec![gen_exp::exp(r, &cfg, 3), mul(k(special(r)), v(&vars[0])), div(v(&vars[0]), k(special(r)))];
     exprs.push(abs(v(&vars[0])));
+    // inf - inf inside interval sums: the NaN repair of lower_sum / upper_sum
+    exprs.push(add(v(&vars[0]), k(*r.pick(&[INF, -INF]))));
+    exprs.push(sub(k(*r.pick(&[INF, -INF])), pv(r, &vars)));
+    exprs.push(add(mul(k(1e300), mul(k(1e300), v(&vars[0]))), mul(k(-1e300), mul(k(1e300), pv(r, &vars)))));
     Inst { domain, constraints: cs, exprs, tags: vec!["special".into()] }
 }
 
@@ -611,6 +705,24 @@ fn fixed() -> Vec<Inst> {
         // 1.9 * (1/1.9)
         Inst { domain: d(vec![("n", VariableType::IntegerRange(0, 10))]), constraints: vec![row(mul(k(1.9), v("n")), ge, k(1.9 * 3.0), 0), row(mul(k(1.9), v("n")), le, k(1.9 * 5.0), 1)],
                exprs: vec![], tags: t("one-point-nine") },
+        // known finding C07-divby-reciprocal-overflow, replayed on every run as a liveness test of the pipeline
+        Inst { domain: d(vec![("x", VariableType::NonNegativeReal(0.0, INF))]), constraints: vec![row(v("x"), ge, k(0.0), 0)],
+               exprs: vec![div(v("x"), k(1e-310))], tags: t("divby-subnormal") },
+        // known finding C07-affine-coefficient-overflow (two liveness cases)
+        Inst { domain: d(vec![("x", real(-INF, INF))]), constraints: vec![row(div(v("x"), k(5e-324)), Comparison::Less, k(0.0), 0)],
+               exprs: vec![], tags: t("coefficient-overflow-reciprocal") },
+        Inst { domain: d(vec![("x", real(-INF, INF))]), constraints: vec![row(mul(k(1e300), mul(k(1e300), v("x"))), ge, k(-5.0), 0)],
+               exprs: vec![], tags: t("coefficient-overflow-product") },
+        // known finding C07-float-rounding-var (liveness): absorption in the reverse step through a nested sum
+        Inst { domain: d(vec![("x", real(-0.5, 0.5))]), constraints: vec![row(add(abs(mul(k(1e-12), v("x"))), k(1e6)), le, k(1000001.0), 0)],
+               exprs: vec![], tags: t("nested-sum-absorption") },
+        // repaired by 4e5bd4b (regression cases): absorption in the top-level reverse step of a non-affine row
+        Inst { domain: d(vec![("x", VariableType::NonNegativeReal(0.0, 1.0)), ("y", VariableType::NonNegativeReal(0.0, 1.0))]),
+               constraints: vec![row(Exp::Max(vec![v("x"), v("y")]), le, k(1e16), 0)], exprs: vec![], tags: t("bigm-absorption") },
+        Inst { domain: d(vec![("z", real(0.0, 1000.0))]), constraints: vec![row(abs(mul(k(1e-9), v("z"))), le, k(1e9), 0)], exprs: vec![], tags: t("bigm-absorption-partial") },
+        // inf - inf in interval sums (NaN repair)
+        Inst { domain: d(vec![("x", real(-INF, INF)), ("y", real(0.0, INF))]), constraints: vec![row(sub(v("x"), v("y")), le, k(INF), 0)],
+               exprs: vec![add(v("x"), k(INF)), sub(v("y"), v("y")), sub(k(-INF), v("x")), add(v("x"), v("y"))], tags: t("inf-minus-inf") },
         // saturating cast
         Inst { domain: d(vec![("n", VariableType::IntegerRange(i32::MIN, i32::MAX))]), constraints: vec![row(mul(k(0.5), v("n")), le, k(1e12), 0)], exprs: vec![mul(k(4.0), v("n"))], tags: t("i32-limits") },
     ]
@@ -620,10 +732,15 @@ pub fn generate(seed: u64, n: usize, _thorough: bool, _corpus: Option<&str>) -> 
     // `Rng::new(s)` and `Rng::new(s + 1)` are the same splitmix stream shifted by one draw: fork once so that
     // different seeds give unrelated case sets
     let mut r = Rng::new(seed).fork();
-    let mut cases: Vec<Case> = fixed().iter().map(run).collect();
+    let mut cases: Vec<Case> = vec![];
+    for inst in fixed().iter() { cases.push(run(inst)); if let Some(c) = run_lin(inst) { cases.push(c); } }
     // the step-limit stream costs 10^4 visits per case on both sides: a fixed small share
     let slow = (n / 60).max(3);
-    for _ in 0..slow { cases.push(run(&s_steplimit(&mut r))); }
+    for j in 0..slow {
+        let inst = s_steplimit(&mut r);
+        cases.push(run(&inst));
+        if j % 4 == 0 { if let Some(c) = run_lin(&inst) { cases.push(c); } }
+    }
     for i in 0..n {
         let inst = match i % 16 {
             0 | 1 | 2 => s_affine(&mut r),
@@ -634,12 +751,13 @@ pub fn generate(seed: u64, n: usize, _thorough: bool, _corpus: Option<&str>) -> 
             11 => s_nonaffine(&mut r),
             12 => s_zero(&mut r),
             13 => s_special(&mut r),
-            14 => s_random(&mut r),
+            14 => if i % 32 == 14 { s_magnitude(&mut r) } else { s_random(&mut r) },
             _ => s_undeclared(&mut r),
         };
         let mut inst = inst;
         if matches!(i % 16, 0 | 1 | 3 | 8 | 9 | 11 | 12 | 14) && r.chance(5, 6) { steer(&mut r, &mut inst); }
         cases.push(run(&inst));
+        if i % 3 != 0 { if let Some(c) = run_lin(&inst) { cases.push(c); } }
     }
     cases
 }
